@@ -2004,6 +2004,16 @@ def allclose(a, b, rtol=1e-05, atol=1e-08, equal_nan=False):
     return _py_bool(ok)
 
 
+def equal(a, b):
+    """torch.equal: same shape and all entries equal (symbolic comparisons are decided by the explorer)"""
+    if a.a.shape != b.a.shape:
+        return False
+    for x, y in zip(a.a.flat, b.a.flat):
+        if not _py_bool(x == y):
+            return False
+    return True
+
+
 def isnan(t):
     return Tensor(_np.frompyfunc(lambda v: False, 1, 1)(t.a), bool_)
 
@@ -2148,8 +2158,8 @@ def _scan_weights_only(obj):
     elif _isinstance(obj, (list, tuple)):
         for v in obj:
             _scan_weights_only(v)
-    elif _isinstance(obj, (Tensor, str, int, _py_float, _py_bool, type(None), _py_complex)):
-        return
+    elif _isinstance(obj, (Tensor, str, int, _py_float, _py_bool, type(None), _py_complex, dtype)):
+        return          # (torch.dtype objects are on torch's allow-list for weights_only loads)
     elif _isinstance(obj, (Z, C, SymInt)):
         return
     else:
